@@ -114,14 +114,12 @@ fn frames_well_formed(w: &World, first_ids: &[u8], a: &Spec, b: &Spec) -> Option
 
 fn different_resources(a: &Spec, b: &Spec) -> bool {
     let (ta, tb) = (touches(a), touches(b));
-    // "address different resources": neither writes what the other writes; the silencer guard couples
-    // Silencer with every sampling division, and a segment write with a swap of that kind
-    let coupled = |x: &Spec, y: &Spec| {
-        matches!(x, Spec::SilSteps(..) | Spec::SilRate(..)) && matches!(y, Spec::Mod { .. } | Spec::Foci { .. } | Spec::GainStm { .. } | Spec::Gain { .. } | Spec::SwapMod(..) | Spec::SwapFoci(..) | Spec::SwapGainStm(..) | Spec::SwapGain(..))
-    };
+    // "address different resources": neither writes what the other writes. Silencer and a sampling division are
+    // different resources although the strict-mode guard reads one when the other is written: the tuple must
+    // still equal the sequence (it does on the unchanged tree for every such pair of the alphabet).
     let stm = |x: &Spec| matches!(x, Spec::Foci { .. } | Spec::GainStm { .. } | Spec::Gain { .. } | Spec::SwapFoci(..) | Spec::SwapGainStm(..) | Spec::SwapGain(..));
     let md = |x: &Spec| matches!(x, Spec::Mod { .. } | Spec::SwapMod(..));
-    !ta.iter().any(|r| tb.contains(r)) && !coupled(a, b) && !coupled(b, a) && !(stm(a) && stm(b)) && !(md(a) && md(b)) && !matches!(a, Spec::Clear) && !matches!(b, Spec::Clear)
+    !ta.iter().any(|r| tb.contains(r)) && !(stm(a) && stm(b)) && !(md(a) && md(b)) && !matches!(a, Spec::Clear) && !matches!(b, Spec::Clear)
 }
 
 fn snapshot(w: &World) -> Vec<String> {
@@ -202,6 +200,54 @@ fn run_pair(out: &mut Out, ndev: usize, a: &Spec, b: &Spec) {
     }
 }
 
+
+/// Does some frame of the tuple (a, b) end a FociSTM / modulation chunk exactly on a write-page boundary
+/// (4096 foci / 32768 samples) with more data to follow? Decided on the real packer's frames of a scratch world.
+fn chunk_meets_page(a: &Spec, b: &Spec) -> bool {
+    let mut w = World::new(1, T0);
+    let _ = w.send_spec(&Spec::Clear, usize::MAX);
+    w.keep_frames = true;
+    let r = guarded(|| w.send_pair_spec(a, b, usize::MAX));
+    if r.is_err() {
+        return false;
+    }
+    let total = |s: &Spec| match s {
+        Spec::Foci { n, size, .. } => n * size,
+        Spec::Mod { n, .. } => *n,
+        _ => 0,
+    };
+    let (mut foci, mut md) = (0usize, 0usize);
+    let tf = [a, b].iter().filter(|s| matches!(s, Spec::Foci { .. })).map(|s| total(s)).max().unwrap_or(0);
+    let tm = [a, b].iter().filter(|s| matches!(s, Spec::Mod { .. })).map(|s| total(s)).max().unwrap_or(0);
+    let mut hit = false;
+    let mut foci_n = 1usize;
+    for (_, f) in &w.frames {
+        let slot2 = u16::from_le_bytes([f[2], f[3]]) as usize;
+        let payload = &f[4..];
+        for off in if slot2 != 0 { vec![0usize, slot2] } else { vec![0usize] } {
+            match payload[off] {
+                0x42 => {
+                    if payload[off + 1] & 1 != 0 {
+                        foci_n = payload[off + 5] as usize;
+                    }
+                    foci += payload[off + 2] as usize * foci_n;
+                    if foci % 4096 == 0 && foci < tf {
+                        hit = true;
+                    }
+                }
+                0x10 => {
+                    md += if payload[off + 1] & 1 != 0 { payload[off + 2] as usize } else { u16::from_le_bytes([payload[off + 2], payload[off + 3]]) as usize };
+                    if md % 32768 == 0 && md < tm {
+                        hit = true;
+                    }
+                }
+                _ => {}
+            }
+        }
+    }
+    hit
+}
+
 fn c03_members(rng: &mut Rng, thorough: bool) -> Vec<Spec> {
     let mut v = vec![
         Spec::Gain { seg: 0, tr: Some((0xFF, 0)), seed: 1 },
@@ -260,6 +306,41 @@ pub fn run_c03(args: &Args) {
             run_pair(&mut out, 1, &b, &a);
         }
     }
+    // a chunk of the second member ends exactly on a write-page boundary: alone, a FociSTM/modulation is always cut
+    // the same way; behind another operation its chunks are shorter, so which frame meets the 4096-foci /
+    // 32768-sample boundary depends on the first member's size. Search first-member sizes with the real packer.
+    let mut aligned = 0usize;
+    for n in if thorough { vec![1usize, 2, 3, 4, 5, 6, 7, 8] } else { vec![1usize, 4] } {
+        let b = Spec::Foci { n, seg: 1, tr: None, rep: 0xFFFF, div: 100, ss: 21760, size: 4096 / n + 120, seed: 60 + n as u64 };
+        let mut found = 0;
+        for m in 2..700usize {
+            let a = Spec::Mod { seg: 0, tr: None, rep: 0xFFFF, div: 10, n: m, seed: 70 };
+            if chunk_meets_page(&a, &b) {
+                run_pair(&mut out, 1, &a, &b);
+                found += 1;
+                aligned += 1;
+                if found >= if thorough { 3 } else { 1 } {
+                    break;
+                }
+            }
+        }
+    }
+    {
+        let b = Spec::Mod { seg: 1, tr: None, rep: 0xFFFF, div: 10, n: 33000, seed: 71 };
+        let mut found = 0;
+        for k in 1..80usize {
+            let a = Spec::Foci { n: 1, seg: 0, tr: None, rep: 0xFFFF, div: 100, ss: 21760, size: 1 + k, seed: 72 };
+            if chunk_meets_page(&a, &b) {
+                run_pair(&mut out, 1, &a, &b);
+                found += 1;
+                aligned += 1;
+                if found >= if thorough { 3 } else { 1 } {
+                    break;
+                }
+            }
+        }
+    }
+    out.count_n("page-aligned-tuples", aligned as u64);
     let _ = frames_of;
     out.sample("reset 1 … / send clear / send silsteps 1 1 0 / send pair mod 1 - 3 10 972 6 | gain 0 255:0 1".into());
     out.finish(
